@@ -113,6 +113,13 @@ CLAIMS["C11"] = (
     "DESIGN.md §2 C11",
 )
 
+CLAIMS["C20"] = (
+    "may-alias / effect analysis, row-index taint, batch-coupling rule, cache-key completeness (def-use dependence through the class's own methods), read-before-write state analysis, list-subscript rule, sibling agreement of zero-signal tests",
+    "Over every encoder, decoder, modulator, demodulator and constraint class (enumerated through the MRO, floor 45): forward / inverse_encode / calculate_syndrome never write through a value that may share storage with an input (including noise_var); the batch row index is used only as a subscript; a decoder's iteration loop is not cut short by a whole-batch reduction unless updates are row-masked; every store into a module-, class- or instance-level cache is keyed by everything the cached value depends on (instance configuration / mutable state, through the class's helper methods); stateless components carry no value from one call to the next; tensors are not subscripted by coordinate lists; the batched and single-item branches of the power constraints select the zero-signal path by the same quantity. These are necessary conditions of 'batch result = stack of single results, repeatable, input unmodified'; value equality itself is not decided.",
+    "Trusted: effects.py aliasing table (float()/to()/view/indexing/as_tensor may alias; clone/arithmetic allocate), the allow-lists in props/c20.py (each with its reason).",
+    "DESIGN.md §2 C20",
+)
+
 NOT_APPLICABLE = {
     "C09": "conjunction at run time of C02/C05/C06/C10/C11/C15 over component pairings and adversarial channels; its structural preconditions (stage order, LLR polarity, label agreement, block framing) are decided under C17, C15, C05, C20 - no additional clause is visible in the shape of the code (DESIGN.md §2 C09)",
 }
